@@ -29,7 +29,7 @@ OPS = genops.REPLACE_FAMILY + ["replace_step"]
 
 
 def cases(tier):
-    return 640 if tier == "quick" else 30000
+    return 5000 if tier == "quick" else 120000
 
 
 def floors(tier):
